@@ -54,7 +54,7 @@ def states(tier):
         S.append(dict(base, ids=u + g))
         S.append(dict(base, ids=u + g, stdin='pty', ptyowner=4000000000))
     # (b2) cwd x stdin x setsid
-    for c in ('root', 'd300', 'd4000', 'dhuge', 'renamed', 'deleted'):
+    for c in ('root', 'd300', 'd4000', 'd4200', 'dhuge', 'd9000', 'renamed', 'deleted'):
         for si in ('pty', 'pipe', 'null', 'closed'):
             for ss in (0, 1):
                 S.append(dict(base, cwd=c, stdin=si, setsid=ss, ptyowner=1))
@@ -102,6 +102,11 @@ def states(tier):
     for ch in ('', 'alpha', 'alpha/beta b'):
         for ss in (0, 1):
             S.append(dict(base, orphan=1, chain=ch, setsid=ss))
+    # (b9) pid 1 of a new PID namespace under the outer namespace's /proc (numbers under /proc are not this namespace's)
+    for ch in ('', 'alpha', 'alpha/beta b'):
+        for ss in (0, 1):
+            for si in ('null', 'pty'):
+                S.append(dict(base, pidns=1, chain=ch, setsid=ss, stdin=si, ptyowner=1))
     # (a) two-value product of every dimension
     two = dict(ids=[(0, 0, 0, 0, 0, 0), (1, 54321, 0, 54321, 1, 0)], setsid=[0, 1], cwd=['root', 'd4000'], stdin=['pty', 'pipe'], env=['three', 'huge'], sudo=[0, 1], host=['-', 'twohost'], chain=['', 'aa/bb'])
     keys = list(two)
@@ -116,7 +121,7 @@ def base_state():
 
 def spec_of(st, ds, work):
     parts = ['ids=%s' % ','.join(map(str, st['ids'])), 'setsid=%d' % st['setsid'], 'cwd=' + st['cwd'], 'stdin=' + st['stdin'], 'env=' + st['env'], 'sudo=%d' % st['sudo'], 'logname=%d' % st['logname'],
-             'host=' + st['host'], 'ptyowner=%d' % st['ptyowner'], 'orphan=%d' % st.get('orphan', 0), 'tz=' + st.get('tz', 'UTC'), 'newpgrp=%d' % st.get('newpgrp', 0), 'pwd=' + st.get('pwd', 'none'), 'exec2=%d' % st.get('exec2', 0), 'forked=%d' % st.get('forked', 0), 'work=' + work, 'ds=' + ','.join(hx(d) for d in ds)] + (['cgfile=' + hx(st['cgfile'])] if st.get('cgfile') else []) + (['etc=' + st['etc']] if st.get('etc') else []) + (['tz2=' + st['tz2']] if st.get('tz2') else []) + (['lognamelast=1'] if st.get('lognamelast') else [])
+             'host=' + st['host'], 'ptyowner=%d' % st['ptyowner'], 'orphan=%d' % st.get('orphan', 0), 'tz=' + st.get('tz', 'UTC'), 'newpgrp=%d' % st.get('newpgrp', 0), 'pwd=' + st.get('pwd', 'none'), 'exec2=%d' % st.get('exec2', 0), 'forked=%d' % st.get('forked', 0), 'work=' + work, 'ds=' + ','.join(hx(d) for d in ds)] + (['cgfile=' + hx(st['cgfile'])] if st.get('cgfile') else []) + (['etc=' + st['etc']] if st.get('etc') else []) + (['tz2=' + st['tz2']] if st.get('tz2') else []) + (['lognamelast=1'] if st.get('lognamelast') else []) + (['pidns=1'] if st.get('pidns') else [])
     if st['chain']:
         parts.append('chain=' + '/'.join(hx(n) for n in st['chain'].split('/')))
     return ';'.join(parts)
@@ -126,7 +131,7 @@ def unh(j, k):
     return bytes.fromhex(j[k])
 
 
-def check_state(st, out, pw, gr, version):
+def check_state(st, out, pw, gr, version, strict_placeholders=False):
     """returns list of (datasource, problem)"""
     f = out['f']
     ds = {bytes.fromhex(k).decode('latin-1'): (v['rv'], bytes.fromhex(v['v'])) for k, v in out['ds'].items()}
@@ -159,6 +164,13 @@ def check_state(st, out, pw, gr, version):
             expect(n, db[idv])
         elif val(n) in db.values():
             bad.append((n, 'id %d has no entry but an existing name %r was reported' % (idv, val(n))))
+        elif strict_placeholders:
+            # the files are readable (or plainly absent) and hold no entry; the name service as a whole (nss-systemd synthesises root and nobody)
+            # has been asked through getpwuid()/getgrgid(): its name, or - no entry there either - the documented "no such entry" text, not an error text
+            key = {'username': 'ns_ruid', 'eusername': 'ns_euid', 'group': 'ns_rgid', 'egroup': 'ns_egid'}[n]
+            want = unh(f, key + '_name').decode('latin-1') if f[key] == 1 else ('user-%d' % idv if n == 'username' else '(undefined)')
+            if f[key] >= 0 and val(n) != want:
+                bad.append((n, 'id %d has no entry in the files: got=%r, name service / documented placeholder=%r' % (idv, val(n)[:60], want)))
         else:
             # a placeholder is fine; one that spells out a number (the documented "user-UID" form) must spell the right one
             m = re.fullmatch(r'(?:[A-Za-z]+-)?(-?\d+)', val(n))
@@ -172,6 +184,8 @@ def check_state(st, out, pw, gr, version):
         expect('tty_uid', f['fd0_uid'])
         if f['fd0_uid'] in pw:
             expect('tty_username', pw[f['fd0_uid']])
+        elif strict_placeholders and f['ns_ttyuid'] >= 0:
+            expect('tty_username', unh(f, 'ns_ttyuid_name').decode('latin-1') if f['ns_ttyuid'] == 1 else 'user-%d' % f['fd0_uid'])
     else:
         for n in ('tty', 'tty_uid', 'tty_username'):
             v = val(n)
@@ -180,7 +194,9 @@ def check_state(st, out, pw, gr, version):
     # cwd
     link = unh(f, 'cwd_link').decode('latin-1')
     cw = val('cwd')
-    if st['cwd'] in ('root', 'd300', 'd4000', 'renamed'):
+    if st['cwd'] in ('d4200', 'dhuge', 'd9000') and not st.get('exec2'):
+        link = unh(f, 'cwd_built').decode('latin-1')     # deeper than PATH_MAX: /proc/self/cwd cannot be read back, the path is known from how it was built
+    if st['cwd'] in ('root', 'd300', 'd4000', 'renamed', 'd4200', 'dhuge', 'd9000'):
         if cw != link:
             bad.append(('cwd', 'got=%r(len %d) want=%r(len %d)' % (cw[-40:], len(cw), link[-40:], len(link))))
     else:   # deleted / beyond PATH_MAX: any placeholder, but not a different existing directory
@@ -281,7 +297,7 @@ def run(ck):
     samples = []
     for st, (out, r, reports) in zip(S, pmap(one, S)):
         evals += 1
-        tag = ('exec2,' if st.get('exec2') else '') + 'tz=%s,pg=%d,pwd=%s,forked=%d,' % (st.get('tz', 'UTC'), st.get('newpgrp', 0), st.get('pwd', 'none'), st.get('forked', 0)) + 'ids=%s,sid=%d,cwd=%s,stdin=%s,env=%s,sudo=%d,logname=%d,host=%s,chain=%s,orphan=%d' % ('/'.join(map(str, st['ids'])), st['setsid'], st['cwd'], st['stdin'], st['env'], st['sudo'], st['logname'], st['host'][:8], st['chain'], st.get('orphan', 0))
+        tag = ('exec2,' if st.get('exec2') else '') + ('pidns_under_outer_proc,' if st.get('pidns') else '') + 'tz=%s,pg=%d,pwd=%s,forked=%d,' % (st.get('tz', 'UTC'), st.get('newpgrp', 0), st.get('pwd', 'none'), st.get('forked', 0)) + 'ids=%s,sid=%d,cwd=%s,stdin=%s,env=%s,sudo=%d,logname=%d,host=%s,chain=%s,orphan=%d' % ('/'.join(map(str, st['ids'])), st['setsid'], st['cwd'], st['stdin'], st['env'], st['sudo'], st['logname'], st['host'][:8], st['chain'], st.get('orphan', 0))
         if out is None or reports:
             ck.violation('C12:abort:%s' % tag, {'state': st, 'rc': r.returncode, 'stderr': r.stderr.decode('latin-1')[-400:], 'sanitizer': reports[:1]})
             continue
@@ -316,13 +332,17 @@ def run(ck):
         for u, g in (((0, 0, 0), (0, 0, 0)), ((1, 0, 0), (1, 0, 0)), ((0, 1, 1), (0, 1, 1)), ((54321, 1, 0), (54321, 1, 0))):
             dbstates.append(dict(base_state(), ids=u + g, etc=d, dbname=name))
             dbmaps.append((parse_db(os.path.join(d, 'passwd'), 2), parse_db(os.path.join(d, 'group'), 2)))
+    for u, g in (((0, 0, 0), (0, 0, 0)), ((1, 0, 0), (1, 0, 0)), ((0, 54321, 1), (0, 54321, 1)), ((4000000000, 1, 0), (4000000000, 1, 0))):
+        for si in ('null', 'pty'):
+            dbstates.append(dict(base_state(), ids=u + g, etc='@absent', dbname='files_absent', stdin=si, ptyowner=1))
+            dbmaps.append(({}, {}))
     for st, (pwm, grm), (out, r, reports) in zip(dbstates, dbmaps, pmap(one, dbstates)):
         evals += 1
-        tag = 'databases=%s,ids=%s' % (st['dbname'], '/'.join(map(str, st['ids'])))
+        tag = 'databases=%s,ids=%s%s' % (st['dbname'], '/'.join(map(str, st['ids'])), ',stdin=pty' if st['stdin'] == 'pty' else '')
         if out is None or reports:
             ck.violation('C12:abort:%s' % tag, {'state': {k: v for k, v in st.items() if k != 'etc'}, 'rc': r.returncode, 'stderr': r.stderr.decode('latin-1')[-400:], 'sanitizer': reports[:1]})
             continue
-        bad = [b for b in check_state(st, out, pwm, grm, version) if b[0] in ('username', 'eusername', 'group', 'egroup', 'tty_username', 'login', 'uid', 'euid', 'gid', 'egid')]
+        bad = [b for b in check_state(st, out, pwm, grm, version, strict_placeholders=True) if b[0] in ('username', 'eusername', 'group', 'egroup', 'tty_username', 'login', 'uid', 'euid', 'gid', 'egid')]
         outcomes.add((tag, tuple(b[0] for b in bad)))
         for n, why in bad:
             ck.violation('C12:%s:%s' % (n, tag), {'datasource': n, 'problem': why, 'databases': st['dbname'], 'ids': st['ids']})
@@ -340,7 +360,7 @@ def run(ck):
     #  such a text needs cgroup nesting this sandbox cannot create for real, so it is outside the constructed states - see DESIGN.md section 8)
     cgfiles = [c for c in dict.fromkeys(cgfiles)]
     cgds = ['cgroup:' + x for x in CGSEL]
-    cgstates = [dict(base_state(), cgfile=c) for c in cgfiles]
+    cgstates = [dict(base_state(), cgfile=c) for c in cgfiles] + [dict(base_state(), cgfile=c, pidns=1) for c in cgfiles[:6]]
     for st, (out, r, reports) in zip(cgstates, pmap(lambda st: one(st, cgds), cgstates)):
         evals += 1
         label = st['cgfile'][:60].replace('\n', '|') + ('...(%d bytes)' % len(st['cgfile']) if len(st['cgfile']) > 60 else '')
@@ -362,7 +382,7 @@ def run(ck):
             w = want[0] if want else '(none)'
             outcomes.add(('cgtext', sel, bool(want), got == w))
             if got != w:
-                ck.violation('C12:cgroup:%s:text=%s' % (sel, label), {'selector': sel, 'cgroup_text': st['cgfile'][:600], 'got': got[:200], 'want': w[:200]})
+                ck.violation('C12:cgroup:%s:%stext=%s' % (sel, 'pidns_under_outer_proc:' if st.get('pidns') else '', label), {'selector': sel, 'cgroup_text': st['cgfile'][:600], 'got': got[:200], 'want': w[:200]})
     # ---- strftime formats (one state)
     conv = 'aAbBcCdDeFgGhHIjklmMnpPrRsStTuUVwWxXyYzZ%'
     fm = ['%' + c for c in conv]
